@@ -57,6 +57,7 @@ from bare_script.parser import BareScriptParserError
 from bare_script.options import url_file_relative
 from vf.hlib.refvm import RefVM
 from vf.props.c17 import spec_resolve, BASES, SYSPREFIX
+from vf.hlib.util import norm_error
 
 MAIN = {main!r}
 FILES = {files!r}
@@ -117,9 +118,11 @@ def _run(real, base, sysprefix, states):
                        resolve=lambda b: (lambda u: spec_resolve(b, u)))
             r = ('ok', vm.run(MODEL))
     except BareScriptRuntimeError as exc:
-        r = ('runtime error', str(exc))
+        r = ('runtime error', norm_error(exc))           # "Include of <resolved url>": the error must name the resolved location
     except BareScriptParserError as exc:
-        r = ('parser error', str(exc))
+        first = str(exc).split(chr(10))[0]
+        named = [u for u in fetched if u in first]
+        r = ('parser error', exc.error, exc.line_number, named[-1:] )     # the message must name the file the error is in
     final = sorted((k, v) for k, v in g.items() if not callable(v))
     return r, fetched, tr, final
 
